@@ -249,6 +249,34 @@ def _kind_branches_export(fn: ast.FunctionDef) -> Dict[str, List[ast.stmt]]:
     return out
 
 
+def _kind_prefixes_import(fn: ast.FunctionDef) -> Dict[str, List[ast.stmt]]:
+    """kind -> the statements of the enclosing block that run before the kind's branch (reads shared by all kinds: the type line,
+    possibly the shape).  Other kinds' branches are if-statements and are skipped by the token reader."""
+    out: Dict[str, List[ast.stmt]] = {}
+
+    def kind_of(test):
+        if isinstance(test, ast.Compare) and len(test.ops) == 1 and isinstance(test.ops[0], ast.Eq):
+            for a, b in ((test.left, test.comparators[0]), (test.comparators[0], test.left)):
+                if isinstance(a, ast.Constant) and isinstance(a.value, str) and isinstance(b, ast.Name):
+                    return a.value
+        return None
+
+    def block(stmts, inherited):
+        for i, st in enumerate(stmts):
+            prefix = inherited + [x for x in stmts[:i] if not isinstance(x, ast.If)]
+            if isinstance(st, ast.If):
+                node = st
+                while isinstance(node, ast.If):
+                    k = kind_of(node.test)
+                    if k is not None:
+                        out.setdefault(k, prefix)
+                    node = node.orelse[0] if len(node.orelse) == 1 and isinstance(node.orelse[0], ast.If) else None
+            elif isinstance(st, (ast.With, ast.Try)):
+                block(st.body, prefix)
+    block(fn.body, [])
+    return out
+
+
 def _kind_branches_import(fn: ast.FunctionDef) -> Dict[str, List[ast.stmt]]:
     out: Dict[str, List[ast.stmt]] = {}
     for n in ast.walk(fn):
@@ -352,9 +380,9 @@ def check(prog: Program, res: Result, tier: str) -> None:
     for n in ast.walk(isa.node):
         if isinstance(n, ast.Assign) and isinstance(n.targets[0], ast.Subscript):
             base = n.targets[0].value
-            if isinstance(base, ast.Name) and base.id == "subs" or _name_is_subs(isa.node, base):
+            if _name_is_subs(isa.node, base):
                 subs_ok = False
-                for b in ast.walk(n.value):
+                for b in ast.walk(isa.resolve(n.value)):
                     if isinstance(b, ast.BinOp) and isinstance(b.op, ast.Sub) and isinstance(b.right, ast.Name) \
                             and b.right.id == "index_base":
                         subs_ok = True
@@ -364,7 +392,7 @@ def check(prog: Program, res: Result, tier: str) -> None:
                 if subs_ok and verdict is None:
                     verdict = ("OK", "", n)
                 elif verdict is None:
-                    uses = any(isinstance(x, ast.Name) and x.id == "index_base" for x in ast.walk(n.value))
+                    uses = any(isinstance(x, ast.Name) and x.id == "index_base" for x in ast.walk(isa.resolve(n.value)))
                     verdict = ("BAD", "index_base is not subtracted from the stored subscripts", n) if not uses else ("UNDEC", "", n)
     if verdict is None:
         res.undecided("IO-base", "import_data.import_sparse_array", desc, prog.loc(isa), "no store into subs found")
@@ -392,6 +420,7 @@ def check(prog: Program, res: Result, tier: str) -> None:
     # ---- IO-seq + tags
     eb = _kind_branches_export(exp.node)
     ib = _kind_branches_import(imp.node)
+    ipre = _kind_prefixes_import(imp.node)
     if len(eb) < 4 or len(ib) < 4:
         raise AnalysisError(f"export/import kind dispatch not recognised (export {sorted(eb)}, import {sorted(ib)})")
     W, R = _Writer(prog, EXM), _Reader(prog, IMM)
@@ -402,14 +431,14 @@ def check(prog: Program, res: Result, tier: str) -> None:
             res.bad("IO-seq", "export_data.export_data", desc, where, f"type tag '{tag}' is written but import_data has no branch for it")
             continue
         wt = _flatten(_compose(W.tokens(body)))
-        rt = "L " + _flatten(R.tokens(ib[tag]))  # the type line is read before the dispatch
+        rt = _flatten(R.tokens(ipre.get(tag, []) + ib[tag]))  # what is read before the dispatch (the type line, ...) and in the branch
         if wt == rt:
             res.ok("IO-seq", "export_data.export_data", desc, where, wt)
         else:
             res.bad("IO-seq", "export_data.export_data", desc, where, f"written: {wt} | read: {rt}")
     # accepted tag list of the importer (the `not in [...]` guard) covers the written tags
     for n in ast.walk(imp.node):
-        if isinstance(n, ast.Compare) and isinstance(n.ops[0], ast.NotIn) and isinstance(n.comparators[0], (ast.List, ast.Tuple, ast.Set)):
+        if isinstance(n, ast.Compare) and isinstance(n.ops[0], (ast.NotIn, ast.In)) and isinstance(n.comparators[0], (ast.List, ast.Tuple, ast.Set)):
             acc = {e.value for e in n.comparators[0].elts if isinstance(e, ast.Constant)}
             missing = sorted(set(eb) - acc)
             desc = "every written type tag is in the importer's accepted list"
@@ -436,11 +465,13 @@ def check(prog: Program, res: Result, tier: str) -> None:
         res.undecided("IO-entry", "export_data.export_sparse_array", desc, prog.loc(esa))
     desc = "sparse entry line read as line[:-1] -> subscripts, line[-1] -> value"
     got = {"subs": None, "vals": None}
+    rroles = _reader_roles(isa.node)
     for n in ast.walk(isa.node):
         if isinstance(n, ast.Assign) and isinstance(n.targets[0], ast.Subscript) and isinstance(n.targets[0].value, ast.Name):
             tgt = n.targets[0].value.id
-            for s in ast.walk(n.value):
-                if isinstance(s, ast.Subscript) and isinstance(s.value, ast.Name) and s.value.id == "line":
+            tgt = "subs" if tgt in rroles["subs"] else ("vals" if tgt in rroles["vals"] else tgt)
+            for s in ast.walk(isa.resolve(n.value, keep=tuple(rroles["line"]))):
+                if isinstance(s, ast.Subscript) and isinstance(s.value, ast.Name) and s.value.id in (rroles["line"] or {"line"}):
                     sl = s.slice
                     if isinstance(sl, ast.Slice):
                         up = const(sl.upper) if sl.upper is not None else None
@@ -472,7 +503,40 @@ def check(prog: Program, res: Result, tier: str) -> None:
 
 
 def _name_is_subs(fn, node) -> bool:
-    return isinstance(node, ast.Name) and node.id == "subs"
+    return isinstance(node, ast.Name) and node.id in _reader_roles(fn)["subs"]
+
+
+def _reader_roles(fn) -> Dict[str, set]:
+    """Names of the sparse reader by role, independent of spelling: `subs` / `vals` are the first / second returned array and every loop
+    variable that is a row of them (for s, v in zip(subs, vals); for k, s in enumerate(subs)); `line` is whatever holds a split input line."""
+    roles = {"subs": set(), "vals": set(), "line": set()}
+    for n in ast.walk(fn):
+        if isinstance(n, ast.Return) and isinstance(n.value, ast.Tuple) and len(n.value.elts) == 2 and all(isinstance(x, ast.Name) for x in n.value.elts):
+            roles["subs"].add(n.value.elts[0].id)
+            roles["vals"].add(n.value.elts[1].id)
+        if isinstance(n, ast.Assign) and len(n.targets) == 1 and isinstance(n.targets[0], ast.Name) \
+                and any(isinstance(c, ast.Call) and isinstance(c.func, ast.Attribute) and c.func.attr == "readline" for c in ast.walk(n.value)):
+            roles["line"].add(n.targets[0].id)
+    if not roles["subs"]:
+        roles["subs"].add("subs")
+        roles["vals"].add("vals")
+
+    def pairs_of(tg, it, depth=0):
+        if depth > 3:
+            return []
+        if isinstance(it, ast.Call) and (dotted(it.func) or "") == "zip" and isinstance(tg, (ast.Tuple, ast.List)) and len(tg.elts) == len(it.args):
+            return [p_ for t_, a_ in zip(tg.elts, it.args) for p_ in pairs_of(t_, a_, depth + 1)]
+        if isinstance(it, ast.Call) and (dotted(it.func) or "") == "enumerate" and isinstance(tg, (ast.Tuple, ast.List)) and len(tg.elts) == 2 and it.args:
+            return pairs_of(tg.elts[1], it.args[0], depth + 1)
+        return [(tg, it)]
+    for n in ast.walk(fn):
+        if isinstance(n, ast.For):
+            for t_, a_ in pairs_of(n.target, n.iter):
+                if isinstance(t_, ast.Name) and isinstance(a_, ast.Name):
+                    for r in ("subs", "vals"):
+                        if a_.id in roles[r]:
+                            roles[r].add(t_.id)
+    return roles
 
 
 def _written_order(fn_export: ast.FunctionDef, arg: ast.expr) -> Optional[str]:
